@@ -52,7 +52,8 @@ Composition ==
   Source = "table" /\ Leaf => LET u == UOf(a)  v == UOf(b) IN
      /\ Plain(u) /\ Plain(v) => SRule(u, v) = Rule(a, b)
      /\ Plain(u) => SRule(u, u) = "linear"
-     /\ Plain(u) /\ Plain(v) => \A w \in 1..NU : Plain(w) =>
+     /\ Plain(u) /\ Plain(v) => \A w \in 1..NU : w \notin Related(v) => SRule(v, w) \notin {"linear", "inverse"}
+     /\ Plain(u) /\ Plain(v) => \A w \in Related(v) :
           /\ SRule(u, v) = "linear"  /\ SRule(v, w) = "linear"  => SRule(u, w) = "linear"
           /\ SRule(u, v) = "inverse" /\ SRule(v, w) = "inverse" => SRule(u, w) = "linear"
           /\ SRule(u, v) = "linear"  /\ SRule(v, w) = "inverse" => SRule(u, w) = "inverse"
@@ -64,7 +65,7 @@ ValueModel ==
      Plain(u) /\ Plain(v) /\ FExact(u) /\ FExact(v) /\ r \in {"linear", "inverse"} /\ u > 0 =>
         \A x \in ModelXs :
            /\ ConvQ(SRule(v, u), ConvQ(r, x, u, v), v, u) = x
-           /\ \A w \in 1..NU : Plain(w) /\ FExact(w) /\ SRule(u, w) \in {"linear", "inverse"} =>
+           /\ \A w \in Related(u) : FExact(w) /\ SRule(u, w) \in {"linear", "inverse"} =>
                  ConvQ(SRule(w, v), ConvQ(SRule(u, w), x, u, w), w, v) = ConvQ(r, x, u, v)
 
 (* ---- emission *)
